@@ -15,6 +15,9 @@ static std::vector<Ev> cev, rev;
 static size_t ci = 0, ri = 0;
 static double tcur = 0.0;
 static long ncalls = 0, nreinit = 0;
+// as in CVODE, the integrator owns its state: CVodeInit/CVodeReInit copy y0 in, CVode copies the
+// state out into yout (so the order of 'restore the user array' and 'CVodeReInit' matters)
+static std::vector<double> zn;
 
 int SUNContext_Create(void *, SUNContext *c) { *c = (void *)1; return 0; }
 int SUNContext_Free(SUNContext *) { return 0; }
@@ -38,7 +41,11 @@ int SUNLinSolFree(SUNLinearSolver) { return 0; }
 void *CVodeCreate(int, SUNContext) { return (void *)1; }
 int CVodeSetErrFile(void *, FILE *) { return 0; }
 int CVodeSetMaxNumSteps(void *, long) { return 0; }
-int CVodeInit(void *, CVRhsFn, realtype t0, N_Vector) { tcur = t0; return 0; }
+int CVodeInit(void *, CVRhsFn, realtype t0, N_Vector y0) {
+    tcur = t0;
+    zn.assign(y0->data, y0->data + y0->len);
+    return 0;
+}
 int CVodeSStolerances(void *, realtype, realtype) { return 0; }
 int CVodeSetLinearSolver(void *, SUNLinearSolver, SUNMatrix) { return 0; }
 int CVodeSetJacFn(void *, CVLsJacFn) { return 0; }
@@ -58,16 +65,20 @@ int CVode(void *, realtype tout, N_Vector y, realtype *t, int) {
     Ev e = ci < cev.size() ? cev[ci] : Ev{0, 1.0};
     ci++;
     double delta = (e.flag >= 0 ? 1.0 : e.rho) * (tout - tcur);
-    for (sunindextype i = 0; i < y->len; i++) y->data[i] += delta;
+    if ((sunindextype)zn.size() != y->len) zn.assign(y->data, y->data + y->len);
+    for (sunindextype i = 0; i < y->len; i++) { zn[i] += delta; y->data[i] = zn[i]; }
     tcur = e.flag >= 0 ? tout : tcur + delta;
     *t = tcur;
     return e.flag;
 }
-int CVodeReInit(void *, realtype t0, N_Vector) {
+int CVodeReInit(void *, realtype t0, N_Vector y0) {
     nreinit++;
     Ev e = ri < rev.size() ? rev[ri] : Ev{0, 0.0};
     ri++;
-    if (e.flag >= 0) tcur = t0;
+    if (e.flag >= 0) {
+        tcur = t0;
+        zn.assign(y0->data, y0->data + y0->len);
+    }
     return e.flag;
 }
 // the generated right-hand side and Jacobian are not exercised by the mock
